@@ -488,6 +488,9 @@ func (l *live) renderOp(s *step, o *obs) string {
 		return "OpPexTick"
 	case "upload":
 		allow, data := "false", "None"
+		if after := l.p.VerifState(); len(after.Upload) < len(o.before.Upload) {
+			allow = "true" // the head request was taken (served, rejected, or silently dropped)
+		}
 		for _, m := range o.rawMsgs {
 			switch m := m.(type) {
 			case protocol.Piece:
@@ -507,7 +510,9 @@ func (l *live) renderOp(s *step, o *obs) string {
 // ---------- generation ----------
 
 type gen struct {
-	r *rand.Rand
+	r     *rand.Rand
+	focus []string // step kinds ("msg/Piece", "ev/PeerRequest", ...) to concentrate on, with hostile fields
+	hot   bool     // currently generating a focused, hostile step
 }
 
 func (g *gen) pick32(l *live, kind string) uint32 {
@@ -515,6 +520,9 @@ func (g *gen) pick32(l *live, kind string) uint32 {
 	np, nchunks, cpp := l.geometry()
 	switch kind {
 	case "index":
+		if g.hot && r.Intn(2) == 0 {
+			return []uint32{1 << 31, 1<<32 - 1, 6710885, 6710886, 1 << 30, 4294967295 / cpp, 4294967295/cpp + 1, uint32(np), uint32(np) + 1}[r.Intn(9)]
+		}
 		switch r.Intn(10) {
 		case 0:
 			return uint32(np)
@@ -532,6 +540,9 @@ func (g *gen) pick32(l *live, kind string) uint32 {
 		}
 		return uint32(r.Intn(4))
 	case "begin":
+		if g.hot && r.Intn(3) == 0 {
+			return []uint32{0, l.sc.Psize, 100, 1<<32 - 1, 1 << 31, 16383, l.sc.Psize - 16384}[r.Intn(7)]
+		}
 		switch r.Intn(8) {
 		case 0:
 			return l.sc.Psize
@@ -610,6 +621,30 @@ func (g *gen) next(l *live, prop string) step {
 		wReq, wPex = 6, 3
 	}
 	x := r.Intn(30 + wUpload + wReq + wPex)
+	g.hot = false
+	forced := ""
+	if len(g.focus) > 0 && r.Intn(3) == 0 {
+		f := strings.SplitN(g.focus[r.Intn(len(g.focus))], "/", 2)
+		g.hot = true
+		switch f[0] {
+		case "msg":
+			x = 0
+			forced = f[1]
+		case "ev":
+			if f[1] == "PeerRequest" {
+				x = 14
+			} else {
+				x = 14 + wReq
+				forced = f[1]
+			}
+		case "tick":
+			x = 24 + wReq
+		case "pextick":
+			x = 28 + wReq
+		case "upload":
+			x = 28 + wReq + wPex
+		}
+	}
 	switch {
 	case x < 14: // message from the remote
 		s.Kind = "msg"
@@ -617,12 +652,22 @@ func (g *gen) next(l *live, prop string) step {
 			"Piece", "Piece", "Piece", "Cancel", "RejectRequest", "AllowedFast", "HaveAll", "HaveNone", "Extended0", "ExtendedPex",
 			"ExtendedMetadata", "ExtendedDontHave", "ExtendedUploadOnly", "KeepAlive", "Port", "SuggestPiece"}
 		s.T = types[r.Intn(len(types))]
+		if prop == "C11" && r.Intn(6) == 0 {
+			s.T = "AllowedFast"
+		}
 		if r.Intn(60) == 0 {
 			s.T = []string{"ExtendedUnknown", "Error"}[r.Intn(2)]
+		}
+		if forced != "" {
+			s.T = forced
 		}
 		switch s.T {
 		case "Have", "AllowedFast", "SuggestPiece", "ExtendedDontHave":
 			s.A = g.pick32(l, "index")
+			if s.T == "AllowedFast" && r.Intn(2) == 0 {
+				// small numbers: these are also block numbers of the first pieces
+				s.A = uint32(r.Intn(12))
+			}
 		case "Bitfield":
 			s.Data = g.bitfield(l)
 		case "Request", "Cancel":
@@ -634,10 +679,15 @@ func (g *gen) next(l *live, prop string) step {
 		case "Piece", "RejectRequest":
 			s.A, s.B = g.pick32(l, "index"), g.pick32(l, "begin")
 			all := append(append([]uint32{}, st.Requested...), st.Queue...)
-			if len(all) > 0 && r.Intn(5) != 0 && l.metaSet {
+			if len(all) > 0 && r.Intn(5) != 0 && l.metaSet && !(g.hot && r.Intn(2) == 0) {
 				c := all[r.Intn(len(all))]
 				_, _, cpp := l.geometry()
 				s.A, s.B = c/cpp, (c%cpp)*16384
+			}
+			if g.hot && l.metaSet && r.Intn(2) == 0 {
+				// indices that toChunk maps onto block 0
+				_, _, cpp := l.geometry()
+				s.A, s.B = []uint32{1<<32 - 1, 4294967295/cpp + 1, 1 << 31}[r.Intn(3)], 0
 			}
 			s.DLen = 16384
 			if l.metaSet {
@@ -681,8 +731,8 @@ func (g *gen) next(l *live, prop string) step {
 		for i := 1 + r.Intn(6); i > 0; i-- {
 			s.Chunks = append(s.Chunks, g.pick32(l, "chunk"))
 		}
-		if !l.metaSet {
-			s.Chunks = []uint32{0}
+		if !l.metaSet || r.Intn(4) == 0 {
+			s.Chunks = append(s.Chunks, 0)
 		}
 	case x < 24+wReq:
 		s.Kind = "ev"
@@ -693,6 +743,9 @@ func (g *gen) next(l *live, prop string) step {
 		}
 		if r.Intn(200) == 0 {
 			s.T = "PeerDone"
+		}
+		if forced != "" {
+			s.T = forced
 		}
 		if s.T == "PeerHave" && !l.metaSet {
 			s.T = "PeerInterested" // the torrent holds no piece before it has the metadata
@@ -837,6 +890,9 @@ func main() {
 	switch os.Args[1] {
 	case "gen":
 		g := &gen{r: cq.Rand()}
+		if f := os.Getenv("VERIF_FOCUS"); f != "" {
+			g.focus = strings.Split(f, ",")
+		}
 		for i := 0; i < *n; i++ {
 			sc := g.scenario(i)
 			nsteps := 5 + g.r.Intn(55)
